@@ -32,6 +32,7 @@ def catalogue() -> list[dict]:
         if ms:
             pid = ms[0]["property"]
             out.append({"id": f"{pid.lower()}-refactor-rename-all-locals", "property": pid, "expect": "silent", "transform": "rename-locals", "source": p.name})
+            out.append({"id": f"{pid.lower()}-refactor-invert-all-ifs", "property": pid, "expect": "silent", "transform": "invert-ifs", "source": p.name})
     # every kept seed (a change written by an independent sub-agent and confirmed to break its
     # property) must keep firing
     for mp in sorted((VERIF / "seeded").glob("*/meta.json")):
@@ -96,11 +97,12 @@ def run_variant(m: dict) -> dict:
             err = None
             if pr.returncode != 0 and "pynetdicom/" in (pr.stdout + pr.stderr) and "FAILED" in (pr.stdout + pr.stderr):
                 err = f"patch did not apply: {(pr.stdout + pr.stderr)[-200:]}"
-        elif m.get("transform") == "rename-locals":
-            # behaviour-preserving: every local of every function renamed, whole tree re-printed
+        elif m.get("transform") in ("rename-locals", "invert-ifs"):
+            # behaviour-preserving whole-tree rewrites: every local renamed / every if-else inverted, re-printed
             _copy_pkg(src, tmp)
-            pr = subprocess.run([sys.executable, str(VERIF / "tools" / "rename_locals.py"), str(tmp)], capture_output=True, text=True)
-            err = None if pr.returncode == 0 else f"rename tool failed: {pr.stderr[-200:]}"
+            tool = {"rename-locals": "rename_locals.py", "invert-ifs": "invert_ifs.py"}[m["transform"]]
+            pr = subprocess.run([sys.executable, str(VERIF / "tools" / tool), str(tmp)], capture_output=True, text=True)
+            err = None if pr.returncode == 0 else f"{tool} failed: {pr.stderr[-200:]}"
         else:
             _copy_pkg(src, tmp)
             err = apply_edits(tmp, m)
